@@ -1,8 +1,14 @@
 """C09 — get_reusable_executor returns a live, correctly configured singleton."""
 from ..ech import H
 
-LEVEL = "other"
+LEVEL = "model_checking"
+ENGINE = "E-CH+E-TS"
 EXPLANATION = (
+    "E-TS slice: two threads run the real get_reusable_executor (and _get_next_executor_id) compiled from the AST, from an "
+    "arbitrary singleton state, constructor/shutdown/_resize as primitives: for every interleaving no two live singletons, "
+    "ids strictly increasing, construction only under the factory lock, shutdown(wait=True) before replacement, no deadlock, "
+    "callers with equal arguments get the same object (bounded model checking; traces replayed on the real function whose "
+    "module globals are routed through a proxy by a mechanical AST rewrite). "
     "Inductive step on the real _ReusablePoolExecutor.get_reusable_executor (CrossHair/z3): the singleton "
     "pre-state (absent / healthy / broken / shut down, previous kwargs and size, next id) and all arguments are "
     "symbolic; constructor, shutdown and _resize of the class are recording stubs; the post-state and the order of "
@@ -12,12 +18,14 @@ ASSUMPTIONS = [
     "invariant: _next_executor_id > every id issued; _executor_kwargs are the kwargs _executor was built with",
     "shutdown(wait=True)/_resize/constructor themselves are decided elsewhere (C05/C06/C10); here only that they are called, in order, with the right arguments",
     "initializer/context identities range over 2-3 objects; reducers/env fixed to None",
-    "racing callers: the whole body is under _executor_lock (checked syntactically by the harness: lock free afterwards); no interleaving search here",
+    "racing callers: 2 threads, <= 3 executor objects, one varying configuration parameter, reuse='auto', kill_workers=False",
 ]
 M = "lokyverif.harness.c09_reusable"
 
 
 def units(tier):
-    return [H("C09", M, "check_factory_step", 1800 if tier == "thorough" else 700,
+    return [("lokyverif.ets.units_exec", "slice_unit", dict(prop="C09", name="slice.reusable_race", builder="x7_reusable_race",
+                                                            K=60, timeout_s=2400)),
+            H("C09", M, "check_factory_step", 1800 if tier == "thorough" else 700,
               ["loky.reusable_executor:_ReusablePoolExecutor.get_reusable_executor", "loky.reusable_executor:_get_next_executor_id"],
               "max_workers in {None,-1..3}, reuse in {True,False,'auto'}, context in {None, loky-like, fork-like}, prev size 1..3, next id 1..5")]
